@@ -2698,6 +2698,21 @@ M('C16', 'lt-by-type', PGP, "    def __lt__(self, other):\n        return self.c
 T('C16', 'twin-insort-insert', TY, "        i = bisect.bisect_left(self, item)\n        self.rotate(- i)\n        self.appendleft(item)\n        self.rotate(i)", "        position = bisect.bisect_left(self, item)\n        self.insert(position, item)")
 M('C16', 'insort-appends', TY, "        i = bisect.bisect_left(self, item)\n        self.rotate(- i)\n        self.appendleft(item)\n        self.rotate(i)", "        self.append(item)", 'C16.5')
 M('C16', 'insort-rotate-back-missing', TY, "        self.appendleft(item)\n        self.rotate(i)", "        self.appendleft(item)", 'C16.5')
+# --- wave 5: context-manager helper around the wrapper body (canon inlines it), yield from, filtered delegation candidates
+_W5_WRAP = "            if key._key is None:\n                raise PGPError(\"No key!\")\n\n            # if a key is in the process of being created, it needs to be allowed to certify its own user id\n            if len(key._uids) == 0 and key.is_primary and action is not key.certify.__wrapped__:\n                raise PGPError(\"Key is not complete - please add a User ID!\")\n\n            with self.usage(key, kwargs.get('user', None)) as _key:\n                self.check_attributes(key)\n\n                # do the thing\n                return action(_key, *args, **kwargs)\n"
+_W5_CALLW = "            with self._component_for(action, key, kwargs.get('user', None)) as _key:\n                return action(_key, *args, **kwargs)\n"
+_W5_HELP = "    @contextlib.contextmanager\n    def _component_for(self, action, key, user):\n        if key._key is None:\n            raise PGPError(\"No key!\")\n\n        if len(key._uids) == 0 and key.is_primary and action is not key.certify.__wrapped__:\n            raise PGPError(\"Key is not complete - please add a User ID!\")\n\n        with self.usage(key, user) as _key:\n            self.check_attributes(key)\n            yield _key\n\n    def __call__(self, action):\n"
+for P in ('C16', 'C07'):
+    T(P, 'twin-call-context-helper', DE, _W5_WRAP, _W5_CALLW, more=[(DE, "    def __call__(self, action):\n", _W5_HELP)])
+M('C16', 'context-helper-yields-before-check', DE, _W5_WRAP, _W5_CALLW, 'C16.2', more=[(DE, "    def __call__(self, action):\n", _W5_HELP.replace("            self.check_attributes(key)\n            yield _key\n", "            yield _key\n            self.check_attributes(key)\n"))])
+M('C07', 'context-helper-drops-check', DE, _W5_WRAP, _W5_CALLW, 'C07.5', more=[(DE, "    def __call__(self, action):\n", _W5_HELP.replace("            self.check_attributes(key)\n", ""))])
+M('C16', 'context-helper-no-key-refusal-lost', DE, _W5_WRAP, _W5_CALLW, 'C16.2', more=[(DE, "    def __call__(self, action):\n", _W5_HELP.replace("        if key._key is None:\n            raise PGPError(\"No key!\")\n\n", ""))])
+M('C16', 'context-helper-yields-addressed-key', DE, _W5_WRAP, _W5_CALLW, 'C16.2', more=[(DE, "    def __call__(self, action):\n", _W5_HELP.replace("            yield _key\n", "            yield key\n"))])
+T('C16', 'twin-preiter-yield-from', DE, "            for item in iterable:\n                yield item\n", "            yield from iterable\n")
+_W5_DEL = "            sks = set(self.subkeys)\n            mis = set(message.encrypters)\n            if sks & mis:\n                skid = list(sks & mis)[0]\n                return self.subkeys[skid].decrypt(message)\n"
+M('C16', 'delegate-only-encryption-subkeys', PGP, _W5_DEL, "            sks = set(kid for kid, sk in self.subkeys.items() if {KeyFlags.EncryptCommunications, KeyFlags.EncryptStorage} & set(sk._get_key_flags()))\n            mis = set(message.encrypters)\n            if sks & mis:\n                skid = list(sks & mis)[0]\n                return self.subkeys[skid].decrypt(message)\n", 'C16.6')
+M('C16', 'delegate-loop-flag-gated', PGP, _W5_DEL, "            for skid, sk in self.subkeys.items():\n                if skid in message.encrypters and KeyFlags.EncryptCommunications in sk._get_key_flags():\n                    return sk.decrypt(message)\n", 'C16.6')
+M('C16', 'delegate-loop-unexpired-only', PGP, _W5_DEL, "            for skid in self.subkeys:\n                if skid in message.encrypters and not self.subkeys[skid].is_expired:\n                    return self.subkeys[skid].decrypt(message)\n", 'C16.6')
 # --- insort evaluated on concrete collections: fast paths that are identities stay silent, wrong ones are reported
 _C16_INS = "        i = bisect.bisect_left(self, item)\n        self.rotate(- i)\n        self.appendleft(item)\n        self.rotate(i)"
 _C16_FAST = "        i = bisect.bisect_left(self, item)\n        if self.maxlen is None:\n            if i == 0:\n                self.appendleft(item)\n                return\n\n            if i == len(self):\n                self.append(item)\n                return\n\n        self.rotate(- i)\n        self.appendleft(item)\n        self.rotate(i)"
